@@ -326,7 +326,11 @@ inline bool execute (Ctx &ctx, const Case &c, const RunFn &run, const SigFn &sig
 	if (counting) ctx.ev.add (c, r) ;
 	if (!r.ok)
 	{	Case s = full_sig (c, r) ;
-		if (auto *k = ctx.kf.match (s)) { k->hits ++ ; ctx.ev.known_hits ++ ; if (counting) ctx.flush () ; return false ; }
+		if (auto *k = ctx.kf.match (s))
+		{	k->hits ++ ; ctx.ev.known_hits ++ ;
+			if (ctx.opt.count ("save-known") && k->hits == 1) c.save (ctx.path ("known_" + k->id + ".case")) ;	// triage: a witness candidate per finding
+			if (counting) ctx.flush () ; return false ;
+		}
 		if (ctx.opt.count ("survey"))
 		{	// triage mode: tally failures by signature instead of stopping at the first one
 			std::string key = "FAIL " + r.kind ;
